@@ -685,12 +685,12 @@ impl KEnv {
         Ok(())
     }
     pub fn k_flush_refcount(&self) -> KResult<()> {
-        self.rec(Rec { kind: K_FLUSH_REFCOUNT, ..NOREC });
+        self.rec(Rec { kind: K_FLUSH_REFCOUNT, flags: self.need_flush_meta() as u32, ..NOREC });
         Ok(())
     }
     /// flush_meta_generic as seen by flush_meta: "done" after `passes_left` more passes
     pub fn k_flush_meta_generic<F: Fn(u64) -> usize>(&self, _l1: &u8, _key_fn: F) -> KResult<bool> {
-        self.rec(Rec { kind: K_FLUSH_MAPPING, ..NOREC });
+        self.rec(Rec { kind: K_FLUSH_MAPPING, flags: self.need_flush_meta() as u32, ..NOREC });
         let left = self.passes_left.get();
         if left == 0 {
             Ok(true)
